@@ -2,7 +2,7 @@
    ending in a node of the fragment, at every level.  Recursive definitions have no finite level and stay outside. *)
 From Coq Require Import List ZArith Bool Lia.
 From Verif Require Import Base.Sx Base.GoVal Schema.Ast Schema.Build Schema.Pipeline Schema.Draft4 Schema.PipelineFacts
-  Schema.PipelineTerm Schema.PipelineQuiet Schema.AgreementData Schema.Agreement.
+  Schema.PipelineTerm Schema.PipelineTermRec Schema.PipelineQuiet Schema.AgreementData Schema.Agreement.
 Import ListNotations.
 Open Scope Z_scope.
 
@@ -72,8 +72,11 @@ Proof.
   { exists (f2 - k - 1)%nat. cbn [Nat.mul] in Hf2. split; lia. }
   destruct Hf2' as [g2 [-> Hg2]]. rewrite (d4_chain d k s t Hch (S g2)). cbn [d4]. rewrite (chain_end k s t Hch).
   apply (body_agree fin allow_null allow_arr OR N opt Hopt_items Hopt_array Hord Heq_sym (sv_validate OR N opt defs g1) (d4 OR N defs g2)
-           (fun c p' q' d' Hd' => no_important_error OR N opt defs g1 c p' q' d' (jd_nohdr fin allow_null allow_arr d' Hd')) t p q d Hl); [|exact Hd].
-  eapply kids_impl; [|exact Kd]. intros c Hcc p' q' d' Hd'. apply IH; [exact Hcc | lia | exact Hg2 | exact Hd'].
+           (fun c p' q' d' Hd' => no_important_error OR N opt defs g1 c p' q' d' (jd_nohdr fin allow_null allow_arr d' Hd'))
+           (fun _ => True) (fun _ => True) t p q d Hl); [|exact Hd|exact I| |].
+  - apply (proj1 (kids_kids2 _ t)). eapply kids_impl; [|exact Kd]. intros c Hcc p' q' d' Hd' _. apply IH; [exact Hcc | lia | exact Hg2 | exact Hd'].
+  - intros id l _. apply Forall_forall. intros x _. exact I.
+  - intros id m _. apply Forall_forall. intros x _. exact I.
 Qed.
 
 End Ref.
